@@ -1,5 +1,5 @@
 """C06 - yields and seasonal totals agree with the daily tables (kind B, history check)."""
-from .common import std_case, std_run, STATE_MEASURE  # noqa: F401
+from .common import year_long_case, std_case, std_run, STATE_MEASURE  # noqa: F401
 from ..monitors import mon_c06, final_c06
 
 ID = "C06"
@@ -17,6 +17,9 @@ PROFILE = {"reactive_p": 0.3, "irr_methods": [0, 1, 2, 3, 4, 4, 5], "season_cap_
 
 
 def gen_case(rng, tier, idx):
+    if idx % 8 == 5:
+        # year-long seasons that touch (harvest date = next planting date): seasonal totals and counters across the boundary
+        return year_long_case(rng, PROFILE)
     if idx % 4 == 2:
         # crops whose water productivity changes during yield formation (WPy < 100) and indeterminate crops, sown into a dry
         # seed bed (delayed germination) or put through a dry spell and re-watering, so that the development clock that times
